@@ -18,6 +18,19 @@ CLAIMS = {
              "(tie = sampling + regenerated _IEC_PREFIXES); CPython's correctly rounded float formatting.",
         technique="Lean 4 proof (induction/omega over exact integer model) + differential correspondence",
         ref="DESIGN.md §6 C20"),
+    "C09": dict(
+        text="Lean 4 theorems: for every grid (any number of axes) and every in-grid position the loop of "
+             "compressed_morton_code equals the specification's bit interleaving, is injective and below "
+             "2^(sum of bits); positions outside the grid, negative or off the chunk lattice are rejected; "
+             "shard and minishard numbers computed with the code's uint64 masks/shifts (incl. shifts >= 64) "
+             "equal the specification for all bit triples and all 64-bit identifiers; the file name parses "
+             "back to the shard number and has ceil(shard_bits/4) digits. Tie: exhaustive differential run "
+             "over all positions (+ outside neighbours) of all small grids, sampled huge grids, and all "
+             "small bit triples against the real ShardVolumeSpec / ShardSpec / CMCReadWrite / ShardCMC.",
+        note="Trusted: Lean kernel; standard axioms; hand-written model (tie = exhaustive small grids + "
+             "sampling); float ceil/log2 in ShardVolumeSpec assumed exact below 2^53 (checked per sample).",
+        technique="Lean 4 proof (digit-list injectivity, testBit extensionality) + differential correspondence",
+        ref="DESIGN.md §6 C09"),
 }
 
 ALL = ["C%02d" % i for i in range(1, 21)]
